@@ -147,13 +147,15 @@ def absent_keywords(db, rnd, scheme, cfg):
 
 
 # ----------------------------------------------------------------------------- one case
-def run_case(scheme, cfg, profile, seed_, present=True, absent=False, want_shape=True, max_search=6, shared_ids=False):
+def run_case(scheme, cfg, profile, seed_, present=True, absent=False, want_shape=True, max_search=6, shared_ids=False, shaped=True):
     rnd = random.Random(seed_)
     idsz = sc.id_size_of(cfg)
     kwlen = None
     if "param_l" in cfg and scheme.startswith("CGKO06"):
         kwlen = rnd.randint(1, min(cfg["param_l"], 10))
-    db = sc.make_db(profile, idsz, rnd, kw_len=kwlen, shared_ids=shared_ids)
+    # keyword-length limit: param_l where the scheme has one (SSE-1, SSE-2); the other schemes take any length
+    kwmax = cfg["param_l"] if ("param_l" in cfg and scheme.startswith("CGKO06")) else 40
+    db = sc.make_db(profile, idsz, rnd, kw_len=kwlen, shared_ids=shared_ids, kw_maxlen=kwmax if shaped else None, shaped_ids=shaped)
     cfg = fit(scheme, cfg, profile, db)
     rec = {"scheme": scheme, "p": list(profile), "cfg": {k: v for k, v in cfg.items()}, "seed": seed_,
            "setup": "raised", "err": "", "shape": [], "searches": []}
